@@ -30,9 +30,15 @@ def worlds(tier):
         w.W("two-indep-1cpu-EDF-symbolic-timeout", w.indep(2, deadline=10 ** 6), w.C1, "EDF", timeout="sym", split=7, weight=80),
         w.W("two-indep-hetero-workers-symdemand-EDF", w.indep(2, release=0), w.HETERO, "EDF", split=6, retry_loops=True, work_conserving=True,
             assume=["fits-somewhere"], tasks={t: {"strategies": [{"rt": RT3, "res": {"CPU": ["sym", 0, 3]}}]} for t in T2}, weight=10),
+        w.W("wide-parent-retried-on-hetero-workers-while-its-child-gets-scheduled-EDF",
+            [w.G("Ga", ["Ta"], [], release=0, deadline="sym"), w.G("Gz", ["Tz", "C"], [("Tz", "C")], release=0, deadline="sym")], w.HETERO, "EDF", split=7, retry_loops=True,
+            work_conserving=True, weight=40, tasks={"Ta": {"strategies": [{"rt": ["sym", 1, 6], "res": {"CPU": 1}}]}, "Tz": {"strategies": [{"rt": RT3, "res": {"CPU": 2}}]},
+                                                    "C": {"strategies": [{"rt": RT3, "res": {"CPU": 1}}]}}),
         w.W("two-indep-1cpu-FIFO-frequency", w.indep(2, deadline=10 ** 6), w.C1, "FIFO", freq="sym", work_conserving=True, split=7, weight=80),
         w.W("two-indep-1cpu-LSF-delay", w.indep(2, deadline=10 ** 6), w.C1, "LSF", delay="sym", work_conserving=True, split=7, weight=30),
         w.W("chain2-1cpu-EDF-run_at_worker_free", w.chain(2), w.C1, "EDF", run_at_worker_free=True, work_conserving=True, split=4),
+        w.W("five-releases-two-of-them-after-the-loop-timeout-EDF", [w.G(f"G{i}", [f"T{i}"], [], release=r, deadline=10 ** 6) for i, r in enumerate((20, 40, 40, 700, 900))], w.C1, "EDF",
+            timeout=500, must_complete=["T0", "T1", "T2"], split=5, weight=10, tasks={f"T{i}": {"strategies": [{"rt": ["sym", 1, 8]}]} for i in range(5)}),
         w.W("join3-2cpu-FIFO", w.fixed_times(w.join()), w.C2, "FIFO", work_conserving=True, split=6),
         w.W("cond2-1cpu-EDF", w.fixed_times(w.cond2()), w.C1, "EDF", split=6, weight=30),
         w.W("one-task-EDF-scheduler-runtime", w.indep(1), w.C1, "EDF", sched_runtime=["sym", 0, 5], work_conserving=True),
